@@ -95,6 +95,10 @@ pub trait Property: Sync {
     /// one-time per-process preparation
     fn setup(&self) {}
     fn run(&self, bytes: &[u8], cfg: &RunCfg) -> Verdict;
+    /// the decoded case as JSON (used to describe a case whose run panicked)
+    fn describe(&self, _bytes: &[u8]) -> Option<Value> {
+        None
+    }
     /// extra, non-generated work done once per check by shard 0 (e.g. exhaustive sub-domain);
     /// returns (evaluations, extra coverage json)
     fn extra(&self, _tier: Tier) -> Option<Result<(u64, Value), Failure>> {
